@@ -116,6 +116,23 @@ Definition gc_cast (a b : ty) : ty :=
   if ty_eqb a TUntyped then (if numeric b then TDbl else if ty_eqb b TUntyped || stringlike b then TStr else b) else a.
 Definition gc_spec (v31 : bool) (o : vop) (a b : ty) : bool := vc_spec v31 o (gc_cast a b) (gc_cast b a).
 
+(* general comparisons of XPath 2.0+ with the XPath 1.0 compatibility mode (XPath 2.0 3.5.2), on single atomic operands:
+   a boolean operand converts the other with fn:boolean; < <= > >= convert both with fn:number; for = and != a numeric
+   operand converts both with fn:number (4a), a string operand casts both to xs:string (4b); otherwise the rules of the
+   normal mode apply.  The code follows the same order (iter_comparison_data, compatibility branch). *)
+Definition gc_compat_defined (v31 : bool) (o : vop) (a b : ty) : bool :=
+  if ty_eqb a TBool || ty_eqb b TBool then true
+  else if negb (is_eqop o) then true
+  else if numeric a || numeric b then true
+  else if ty_eqb a TStr || ty_eqb b TStr then true
+  else gc_defined v31 o a b.
+Definition gc_compat_spec (v31 : bool) (o : vop) (a b : ty) : bool :=
+  if ty_eqb a TBool || ty_eqb b TBool then true
+  else if negb (is_eqop o) then true
+  else if numeric a || numeric b then true
+  else if ty_eqb a TStr || ty_eqb b TStr then true
+  else gc_spec v31 o a b.
+
 (* ---- general comparison ---- *)
 Section General.
 Variable A : Type.
